@@ -20,6 +20,20 @@ type eTarget struct {
 	K string   `json:"k"` // hex field
 	C bool     `json:"c"`
 	X []string `json:"x"`
+	O bool     `json:"o,omitempty"` // only the negations are written (update directives)
+}
+
+// the action list of a SecRuleUpdateActionById (modelled subset)
+type eUpd struct {
+	Disr string   `json:"disr"` // "-" = no disruptive action in the list
+	Rt   string   `json:"rt"`
+	St   int      `json:"st"`
+	Sev  int      `json:"sev"`
+	Tags []string `json:"tags"`
+	NA   []eNAct  `json:"na"`
+	Logs []string `json:"logs"`
+	Skip int      `json:"skip"`
+	Sa   string   `json:"sa"`
 }
 type eOp struct {
 	N   string `json:"n"`
@@ -46,6 +60,13 @@ type eLink struct {
 	NA  []eNAct   `json:"na"`
 }
 type eRule struct {
+	// a configuration-time directive instead of a rule (acts on the rules before it)
+	Dir  string    `json:"dir,omitempty"` // removeById removeByTag updateTargetById updateTargetByTag updateActionById
+	Sels [][]int   `json:"sels,omitempty"`
+	Tag  string    `json:"tag,omitempty"`
+	Tg   []eTarget `json:"tg,omitempty"`
+	Upd  *eUpd     `json:"upd,omitempty"`
+
 	ID    int      `json:"id"`
 	Ph    int      `json:"ph"`
 	Mk    string   `json:"mk"`
@@ -140,7 +161,9 @@ func renderTargets(ts []eTarget) string {
 		if k := gen.Unfield(t.K); k != "" {
 			s += ":" + k
 		}
-		parts = append(parts, s)
+		if !t.O {
+			parts = append(parts, s)
+		}
 		for _, x := range t.X {
 			e := "!" + t.V
 			if k := gen.Unfield(x); k != "" {
@@ -201,7 +224,66 @@ func renderLinkActions(l eLink) []string {
 	return acts
 }
 
+func renderSels(sels [][]int) string {
+	var p []string
+	for _, s := range sels {
+		if len(s) == 1 {
+			p = append(p, strconv.Itoa(s[0]))
+		} else {
+			p = append(p, fmt.Sprintf("%d-%d", s[0], s[1]))
+		}
+	}
+	return strings.Join(p, " ")
+}
+
+func renderDir(r eRule) string {
+	switch r.Dir {
+	case "removeById":
+		return "SecRuleRemoveById " + renderSels(r.Sels) + "\n"
+	case "removeByTag":
+		return "SecRuleRemoveByTag " + gen.Unfield(r.Tag) + "\n"
+	case "updateTargetById":
+		return "SecRuleUpdateTargetById " + renderSels(r.Sels) + " \"" + renderTargets(r.Tg) + "\"\n"
+	case "updateTargetByTag":
+		return "SecRuleUpdateTargetByTag " + gen.Unfield(r.Tag) + " \"" + renderTargets(r.Tg) + "\"\n"
+	case "updateActionById":
+		u := r.Upd
+		var acts []string
+		switch u.Disr {
+		case "-":
+		case "redirect":
+			acts = append(acts, "redirect:"+gen.Unfield(u.Rt))
+		default:
+			acts = append(acts, u.Disr)
+		}
+		if u.St != 0 {
+			acts = append(acts, "status:"+strconv.Itoa(u.St))
+		}
+		if u.Sev >= 0 {
+			acts = append(acts, "severity:"+strconv.Itoa(u.Sev))
+		}
+		for _, t := range u.Tags {
+			acts = append(acts, "tag:'"+gen.Unfield(t)+"'")
+		}
+		for _, a := range u.NA {
+			acts = append(acts, renderNAct(a))
+		}
+		acts = append(acts, u.Logs...)
+		if u.Skip > 0 {
+			acts = append(acts, "skip:"+strconv.Itoa(u.Skip))
+		}
+		if u.Sa != "-" && u.Sa != "" {
+			acts = append(acts, "skipAfter:"+gen.Unfield(u.Sa))
+		}
+		return "SecRuleUpdateActionById " + renderSels(r.Sels) + " \"" + strings.Join(acts, ",") + "\"\n"
+	}
+	return ""
+}
+
 func renderRule(r eRule) string {
+	if r.Dir != "" {
+		return renderDir(r)
+	}
 	if r.ID == 0 {
 		return "SecMarker " + gen.Unfield(r.Mk) + "\n"
 	}
@@ -301,6 +383,8 @@ func execEng(a []string) string {
 	return runEngCase(waf, &c, cb)
 }
 
+var lastConfigErr string
+
 // buildEngWAF compiles the case's configuration; cb collects error-callback rule ids.
 func buildEngWAF(c *eCase) (coraza.WAF, *[]string, string) {
 	cb := &[]string{}
@@ -309,7 +393,8 @@ func buildEngWAF(c *eCase) (coraza.WAF, *[]string, string) {
 	})
 	waf, err := coraza.NewWAF(cfg)
 	if err != nil {
-		return nil, nil, "CONFIGERR " + strings.ReplaceAll(err.Error(), " ", "_")
+		lastConfigErr = err.Error()
+		return nil, nil, "CONFIGERR"
 	}
 	return waf, cb, ""
 }
@@ -374,14 +459,34 @@ func runEngCase(waf coraza.WAF, c *eCase, cbp *[]string) string {
 var (
 	eKeys   = []string{"a", "b", "A", "c", "Ab"}
 	eVals   = []string{"x", "y", "xy", "X", "1", "2", "10", "", " x ", "%78", "x\x00"}
-	eTxKeys = []string{"s", "n", "k", "S"}
+	eTxKeys = []string{"s", "n", "k", "S", "1"} // TX.1 exists from the start and is empty (capture slot)
 	eMapVar = []string{"ARGS_GET", "ARGS_POST", "ARGS", "REQUEST_HEADERS", "TX", "ARGS_NAMES", "ARGS_GET_NAMES", "ARGS_POST_NAMES", "REQUEST_HEADERS_NAMES", "MATCHED_VARS", "MATCHED_VARS_NAMES"}
 	eOps    = []string{"streq", "contains", "beginsWith", "endsWith", "within", "eq", "ge", "gt", "le", "lt", "pm", "unconditionalMatch", "noMatch"}
 	eTfs    = []string{"lowercase", "uppercase", "trim", "urlDecode", "removeNulls", "hexEncode", "length", "trimLeft", "urlEncode"}
+	// regex keys (`VAR:/re/`, `!VAR:/re/`, ctl …;VAR:/re/) over the key vocabulary; all inside the
+	// fragment of lean/Coraza/Model/Regex.lean; upper-case letters and \D \W \S because the code
+	// lower-cases the expression text for case-insensitive variables
+	eRxKeys = []string{"^a", "a", "^a$", "[ab]", "^A", "A", "b$", "^.$", "a|c", "^(a|b)$", "\\D", "^\\w+$", "[^a]", "^[A-Z]",
+		"a?b", ".b", "x*", "^[a-c]{2}$", "^\\d", "B", "\\W", "^(?i)A", "a.", "^$", "\\bb", "[A-C]b", "^ab?$"}
 )
 
+func genKeySel(r *gen.R, p engProfile, tx bool) string {
+	if r.Chance(0.1 + p.rxkeys) {
+		return gen.Field("/" + r.Pick(eRxKeys...) + "/")
+	}
+	if tx {
+		return gen.Field(r.Pick(eTxKeys...))
+	}
+	return gen.Field(r.Pick(eKeys...))
+}
+
+func isRxField(k string) bool {
+	u := gen.Unfield(k)
+	return len(u) >= 2 && u[0] == '/' && u[len(u)-1] == '/'
+}
+
 type engProfile struct {
-	flow, disr, acct, ctl, chains, cache, apiOrder, modeSwitch float64
+	flow, disr, acct, ctl, chains, cache, apiOrder, modeSwitch, rxkeys, dirs float64
 }
 
 func genLink(r *gen.R, p engProfile, first, prevDet bool, ruleIDs []int) (eLink, bool) {
@@ -401,18 +506,18 @@ func genLink(r *gen.R, p engProfile, first, prevDet bool, ruleIDs []int) (eLink,
 		} else {
 			t.V = eMapVar[r.Intn(len(eMapVar))]
 			if r.Chance(0.55) {
-				t.K = gen.Field(r.Pick(eKeys...))
-				if t.V == "TX" {
-					t.K = gen.Field(r.Pick(eTxKeys...))
-				}
+				t.K = genKeySel(r, p, t.V == "TX")
 			} else {
 				t.K = "-"
 			}
 			t.C = r.Chance(0.15)
-			if r.Chance(0.2) {
-				t.X = append(t.X, gen.Field(r.Pick(eKeys...)))
+			if r.Chance(0.2 + p.rxkeys/2) {
+				t.X = append(t.X, genKeySel(r, p, false))
+				if r.Chance(0.2) {
+					t.X = append(t.X, genKeySel(r, p, false))
+				}
 			}
-			if t.K == "-" && !t.C {
+			if (t.K == "-" || isRxField(t.K)) && !t.C {
 				det = false
 			}
 		}
@@ -473,7 +578,7 @@ func genNAct(r *gen.R, p engProfile, det bool, ruleIDs []int) eNAct {
 		default:
 			k := "-"
 			if r.Chance(0.7) {
-				k = gen.Field(r.Pick(eKeys...))
+				k = genKeySel(r, p, false)
 			}
 			return eNAct{N: "ctlRemoveTargetById", Lo: id, Hi: id, Var: r.Pick("ARGS_GET", "ARGS", "ARGS_POST", "REQUEST_HEADERS", "TX"), K: k}
 		}
@@ -502,6 +607,117 @@ func genNAct(r *gen.R, p engProfile, det bool, ruleIDs []int) eNAct {
 		a.V = gen.Field("+1")
 	}
 	return a
+}
+
+// genSels: an id list for a configuration-time directive: existing ids, ids without a rule,
+// ranges (also lo==hi, rarely inverted = configuration error)
+func genSels(r *gen.R, ids []int) [][]int {
+	var out [][]int
+	for k := 1 + r.Intn(3); k > 0; k-- {
+		id := ids[r.Intn(len(ids))]
+		switch {
+		case r.Chance(0.1):
+			out = append(out, []int{[]int{5, 15, 99, 1000}[r.Intn(4)]})
+		case r.Chance(0.3):
+			lo, hi := ids[r.Intn(len(ids))], id
+			if lo > hi && !r.Chance(0.03) {
+				lo, hi = hi, lo
+			}
+			if r.Chance(0.3) {
+				lo -= 5
+			}
+			if r.Chance(0.3) {
+				hi += 5
+			}
+			out = append(out, []int{lo, hi})
+		default:
+			out = append(out, []int{id})
+		}
+	}
+	return out
+}
+
+func genDirTargets(r *gen.R, p engProfile) []eTarget {
+	var out []eTarget
+	for k := 1 + r.Intn(2); k > 0; k-- {
+		t := eTarget{V: r.Pick("ARGS", "ARGS_GET", "ARGS_POST", "REQUEST_HEADERS", "TX", "ARGS_NAMES"), K: "-", X: []string{}}
+		if r.Chance(0.5) {
+			// negation only
+			t.O = true
+			if r.Chance(0.85) {
+				t.X = append(t.X, genKeySel(r, p, t.V == "TX"))
+			} else {
+				t.X = append(t.X, "-")
+			}
+		} else {
+			// a positive target added to an existing rule must select deterministically (the rule may
+			// carry order-dependent actions): plain key, or a count
+			t.K = gen.Field(r.Pick(eKeys...))
+			if t.V == "TX" {
+				t.K = gen.Field(r.Pick(eTxKeys...))
+			}
+			if r.Chance(0.2) {
+				t.C = true
+				if r.Chance(0.5) {
+					t.K = genKeySel(r, p, t.V == "TX")
+				}
+			}
+			if r.Chance(0.2) {
+				t.X = append(t.X, genKeySel(r, p, t.V == "TX"))
+			}
+		}
+		out = append(out, t)
+	}
+	return out
+}
+
+func genDirective(r *gen.R, p engProfile, ids []int) eRule {
+	d := eRule{Rt: "-", Sa: "-", Mk: "-", Sev: -1, Tags: []string{}, Links: []eLink{}}
+	switch r.Intn(7) {
+	case 0:
+		d.Dir, d.Sels = "removeById", genSels(r, ids)
+	case 1:
+		d.Dir, d.Tag = "removeByTag", gen.Field(r.Pick("t1", "t2", "t9"))
+	case 2, 3:
+		d.Dir, d.Sels, d.Tg = "updateTargetById", genSels(r, ids), genDirTargets(r, p)
+	case 4:
+		d.Dir, d.Tag, d.Tg = "updateTargetByTag", gen.Field(r.Pick("t1", "t2", "t9")), genDirTargets(r, p)
+	default:
+		d.Dir, d.Sels = "updateActionById", genSels(r, ids)
+		u := &eUpd{Disr: "-", Rt: "-", Sev: -1, Tags: []string{}, NA: []eNAct{}, Logs: []string{}, Sa: "-"}
+		if r.Chance(0.6) {
+			u.Disr = r.Pick("deny", "deny", "drop", "pass", "allow", "redirect", "allow:phase")
+			if u.Disr == "redirect" {
+				u.Rt = gen.Field("http://e.x/u")
+			}
+		}
+		if r.Chance(0.4) {
+			u.St = []int{302, 400, 404, 500}[r.Intn(4)]
+		}
+		if r.Chance(0.3) {
+			u.Sev = r.Intn(8)
+		}
+		if r.Chance(0.3) {
+			u.Tags = append(u.Tags, gen.Field(r.Pick("t1", "t2")))
+		}
+		if r.Chance(0.5) {
+			u.NA = append(u.NA, eNAct{N: "setvar", K: gen.Field(r.Pick(eTxKeys...)), V: gen.Field("+" + strconv.Itoa(1+r.Intn(5)))})
+		}
+		if r.Chance(0.3) {
+			u.Logs = append(u.Logs, r.Pick("log", "nolog", "auditlog", "noauditlog"))
+		}
+		if r.Chance(0.15) {
+			u.Skip = 1 + r.Intn(2)
+		}
+		if r.Chance(0.15) {
+			u.Sa = gen.Field(r.Pick("M1", "M2"))
+		}
+		if u.Disr == "-" && u.St == 0 && u.Sev < 0 && len(u.Tags) == 0 && len(u.NA) == 0 && len(u.Logs) == 0 && u.Skip == 0 && u.Sa == "-" {
+			u.Logs = append(u.Logs, "log")
+		}
+		d.Upd = u
+	}
+	return d
 }
 
 func genEngCase(r *gen.R, p engProfile) *eCase {
@@ -571,6 +787,51 @@ func genEngCase(r *gen.R, p engProfile) *eCase {
 	if r.Chance(0.1 + p.flow/2) {
 		c.Rules = append(c.Rules, eRule{ID: 0, Ph: 0, Mk: gen.Field(r.Pick(markers...)), Links: []eLink{{Tg: []eTarget{}, Tfs: []string{}, NA: []eNAct{}}}, Rt: "-", Sa: "-", Sev: -1, Tags: []string{}})
 	}
+	if p.ctl >= 0.3 && r.Chance(0.3) {
+		// run-time target exclusions aimed at a rule that exists and at variables it really reads:
+		// two or three of them for one rule (string keys, regex keys, the whole variable, repeated),
+		// executed by a phase-1 SecAction placed first
+		var cands []eRule
+		for _, ru := range c.Rules {
+			if ru.ID != 0 && len(ru.Links) > 0 && len(ru.Links[0].Tg) > 0 {
+				cands = append(cands, ru)
+			}
+		}
+		if len(cands) > 0 {
+			ru := cands[r.Intn(len(cands))]
+			l := eLink{Tg: []eTarget{}, Tfs: []string{}, NA: []eNAct{}}
+			for k := 2 + r.Intn(2); k > 0; k-- {
+				lk := ru.Links[r.Intn(len(ru.Links))]
+				if len(lk.Tg) == 0 {
+					lk = ru.Links[0]
+				}
+				t := lk.Tg[r.Intn(len(lk.Tg))]
+				key := "-"
+				switch r.Intn(4) {
+				case 0:
+					key = gen.Field(r.Pick(eKeys...))
+				case 1, 2:
+					key = gen.Field("/" + r.Pick(eRxKeys...) + "/")
+				}
+				l.NA = append(l.NA, eNAct{N: "ctlRemoveTargetById", Lo: ru.ID, Hi: ru.ID, Var: t.V, K: key})
+			}
+			g := eRule{ID: 7, Ph: 1, Mk: "-", Rt: "-", Sa: "-", Sev: -1, Tags: []string{}, Links: []eLink{l}}
+			c.Rules = append([]eRule{g}, c.Rules...)
+		}
+	}
+	if p.dirs > 0 && r.Chance(p.dirs) {
+		// configuration-time exclusions/updates, each placed after at least one rule (a directive
+		// acts on the rules before it; some are placed early so that later rules are not affected)
+		for k := 1 + r.Intn(3); k > 0; k-- {
+			d := genDirective(r, p, ids)
+			pos := len(c.Rules)
+			if r.Chance(0.35) {
+				pos = 1 + r.Intn(len(c.Rules))
+			}
+			c.Rules = append(c.Rules[:pos], append([]eRule{d}, c.Rules[pos:]...)...)
+		}
+	}
+	oddKeys := r.Chance(0.1) // non-ASCII names in some cases only: with regex keys they leave the modelled fragment
 	pairs := func() [][2]string {
 		out := [][2]string{}
 		for k := r.Intn(4); k > 0; k-- {
@@ -579,8 +840,10 @@ func genEngCase(r *gen.R, p engProfile) *eCase {
 				v = r.Bytes(2)
 			}
 			k := r.Pick(eKeys...)
-			if r.Chance(0.05) {
+			if oddKeys && r.Chance(0.3) {
 				k = r.Pick("\xff", "K", "c\xc3\xa9", "İ")
+			} else if r.Chance(0.12) {
+				k = r.Pick("ab", "ba", "a1", "B", "", "a.b", "aB")
 			}
 			out = append(out, [2]string{gen.Field(k), gen.Field(v)})
 		}
@@ -603,9 +866,10 @@ var engProfiles = map[string]engProfile{
 	"flow":  {flow: 0.3, chains: 0.1, disr: 0.1},
 	"api":   {disr: 0.35, apiOrder: 0.35, ctl: 0.1, modeSwitch: 0.2},
 	"acct":  {acct: 0.4, chains: 0.2},
-	"ctl":   {ctl: 0.35},
+	"ctl":   {ctl: 0.35, rxkeys: 0.15, dirs: 0.45},
+	"dirs":  {dirs: 1, rxkeys: 0.15, disr: 0.1},
 	"cache": {cache: 0.5, chains: 0.2},
-	"match": {chains: 0.3},
+	"match": {chains: 0.3, rxkeys: 0.25},
 }
 
 // engrep: the same case N times on fresh WAFs; any difference between repetitions is reported
@@ -752,6 +1016,25 @@ func init() {
 			}
 			if strings.HasPrefix(obs, "CONFIGERR") {
 				c.stats.Hit("configerr")
+				m := lastConfigErr
+				if i := strings.LastIndex(m, ": "); i >= 0 {
+					m = m[i+2:]
+				}
+				m = strings.Map(func(r rune) rune {
+					if r >= '0' && r <= '9' {
+						return -1
+					}
+					return r
+				}, m)
+				if len(m) > 40 {
+					m = m[:40]
+				}
+				c.stats.Hit("configerr:" + m)
+			}
+			for _, ru := range cs.Rules {
+				if ru.Dir != "" {
+					c.stats.Hit("dir:" + ru.Dir)
+				}
 			}
 			for _, ru := range cs.Rules {
 				if len(ru.Links) > 1 {
